@@ -916,6 +916,16 @@ class Interp:
         raise Unsupported("binop %s on %s" % (op, ta))
 
     def float_binop(self, st, op, a, b):
+        if (is_sym(a) and z3.is_real(a)) or (is_sym(b) and z3.is_real(b)):
+            # finite, non-NaN floats abstracted as reals (only comparisons are meaningful)
+            from fractions import Fraction
+            za = a if is_sym(a) else z3.RealVal(str(Fraction(a)))
+            zb = b if is_sym(b) else z3.RealVal(str(Fraction(b)))
+            r = {"Lt": lambda: za < zb, "Le": lambda: za <= zb, "Gt": lambda: za > zb, "Ge": lambda: za >= zb,
+                 "Eq": lambda: za == zb, "Ne": lambda: za != zb}.get(op)
+            if r is None:
+                raise Unsupported("real-abstracted float op %s" % op)
+            return self.norm(r(), None)
         za = a if is_sym(a) else z3.FPVal(a, z3.Float64())
         zb = b if is_sym(b) else z3.FPVal(b, z3.Float64())
         r = {"Lt": lambda: z3.fpLT(za, zb), "Le": lambda: z3.fpLEQ(za, zb), "Gt": lambda: z3.fpGT(za, zb),
